@@ -991,6 +991,7 @@ static int led_del(void *p)
   return 0;
 }
 void sk_ledger_reset(void) { nledger = 0; }
+int sk_is_alloc(const void *p) { for (int i = 0; i < nledger; i++) if (ledger[i].p == p) return 1; return 0; }
 static int afault(void) { return (K && K->in_api) ? fault(FK_ALLOC) : 0; }
 
 void *__wrap_malloc(size_t n)
